@@ -88,7 +88,8 @@ func main() {
 		if p == nil {
 			os.Exit(2)
 		}
-		env := &engine.Env{Tier: os.Args[3], Seed: *wseed, Scratch: *scratch, Repo: repo, Verif: verif, Shard: *shard, Of: *of, Data: map[string]any{}, Tools: tools()}
+		self, _ := os.Executable()
+		env := &engine.Env{Tier: os.Args[3], Seed: *wseed, Scratch: *scratch, Repo: repo, Verif: verif, Shard: *shard, Of: *of, Data: map[string]any{}, Tools: tools(), Self: self}
 		if *deadline > 0 {
 			env.Deadline = time.Unix(*deadline, 0)
 		}
@@ -97,6 +98,18 @@ func main() {
 			fmt.Fprintln(os.Stderr, err)
 			os.Exit(2)
 		}
+	case "casecheck":
+		// mc casecheck <ID> <tier> <case.json> <scratch>: one case in a fresh process (internal)
+		if len(os.Args) < 6 {
+			os.Exit(2)
+		}
+		p := engine.Lookup(os.Args[2])
+		if p == nil {
+			os.Exit(2)
+		}
+		os.MkdirAll(os.Args[5], 0o755)
+		env := &engine.Env{Tier: os.Args[3], Seed: seed, Scratch: os.Args[5], Repo: repo, Verif: verif, Of: 1, Data: map[string]any{}, Tools: tools()}
+		os.Exit(engine.CaseCheck(p, env, os.Args[4]))
 	case "racepass":
 		// mc racepass <tier> <outfile>: free-running pass of the C12 bodies (binary built with -race)
 		if len(os.Args) < 4 {
